@@ -674,4 +674,3 @@ func checkC19(cs *c19Case, o *pt.Obs) error {
 }
 
 func TestC19(t *testing.T) { pt.RunProp(t, "C19", genC19, checkC19) }
-
